@@ -1,6 +1,6 @@
 import FlytModel.Generated.IR
 import FlytModel.Expected.IR
-/-! The translation of `BatchNodeBuilder_Post` from the CURRENT source is, term for term, the IR the refinement theorems are about. -/
+/-! The translation of `BatchNodeBuilder_Post` from the CURRENT source is, term for term, the expected IR. -/
 namespace Flyt.Tie
 theorem BatchNodeBuilder_Post : Flyt.Generated.IR.BatchNodeBuilder_Post = Flyt.Expected.IR.BatchNodeBuilder_Post := rfl
 end Flyt.Tie
